@@ -178,7 +178,9 @@ def tag_is_deprecated_check(hed_schema, tag_entry, attribute_name):
     """
     issues = []
     deprecated_version = tag_entry.attributes.get(attribute_name, "")
-    library_name = tag_entry.has_attribute(HedKey.InLibrary, return_value=True)
+    # The library an entry belongs to is its own inLibrary value.  For tags has_attribute() also gathers
+    # the values of the parent tags ("score,score"), which names no library.
+    library_name = tag_entry.attributes.get(HedKey.InLibrary)
     if not library_name and not hed_schema.with_standard:
         library_name = hed_schema.library
     all_versions = get_hed_versions(library_name=library_name)
